@@ -1,1 +1,47 @@
-// placeholder
+//! C16 — game version order/equality (parser/printer half is not applicable: DESIGN.md C16).
+use insim_core::game_version::GameVersion;
+use std::cmp::Ordering::*;
+
+fn any_gv() -> GameVersion {
+    let major: f32 = kani::any();
+    // the parser accepts digits and dots only: it cannot yield NaN or -0.0 (argument from reading from_str)
+    kani::assume(!major.is_nan() && major.to_bits() != (-0.0f32).to_bits());
+    let minor: char = kani::any();
+    let patch: Option<usize> = kani::any();
+    GameVersion { major, minor, patch }
+}
+
+fn reference_cmp(a: &GameVersion, b: &GameVersion) -> std::cmp::Ordering {
+    // (number, then letter, then revision; a missing revision counts as 0)
+    if a.major < b.major { return Less; }
+    if a.major > b.major { return Greater; }
+    if (a.minor as u32) < (b.minor as u32) { return Less; }
+    if (a.minor as u32) > (b.minor as u32) { return Greater; }
+    let (pa, pb) = (a.patch.unwrap_or(0), b.patch.unwrap_or(0));
+    if pa < pb { Less } else if pa > pb { Greater } else { Equal }
+}
+
+#[kani::proof]
+fn c16_order_axioms() {
+    let a = any_gv();
+    let b = any_gv();
+    let c = any_gv();
+    assert!(a.cmp(&a) == Equal, "C16:reflexive");
+    assert!((a.cmp(&b) == Equal) == (a == b), "C16:cmp Equal iff ==");
+    assert!(a.cmp(&b) == b.cmp(&a).reverse(), "C16:antisymmetric");
+    if a.cmp(&b) != Greater && b.cmp(&c) != Greater {
+        assert!(a.cmp(&c) != Greater, "C16:transitive");
+    }
+    assert!(a.cmp(&b) == reference_cmp(&a, &b), "C16:ordered by number, letter, revision-or-0");
+    assert!(a.partial_cmp(&b) == Some(a.cmp(&b)), "C16:partial_cmp agrees with cmp");
+    kani::cover!(a.major == b.major && a.minor == b.minor && a.patch.is_none() && b.patch == Some(0), "missing revision equals revision 0");
+    kani::cover!(a.cmp(&b) == Less && a.major == b.major && a.minor == b.minor, "ordered by revision only");
+}
+
+/// vacuity twin
+#[kani::proof]
+fn c16_twin_must_fail() {
+    let a = any_gv();
+    let b = any_gv();
+    assert!(a.cmp(&b) != Less || a.major < b.major, "TWIN:order decided by the number alone");
+}
